@@ -2,7 +2,7 @@
    Property theorems only: each is closed by [exact <lemma>] (or a computation for witnesses) and followed
    by [Print Assumptions].  Model: Model/C06.v   Lemmas: Proofs/C06_Acc.v, Proofs/C06_Db.v, Proofs/C06.v, Proofs/C06_Sto.v, Proofs/C06_R3.v *)
 From Coq Require Import List NArith ZArith Bool Permutation Lia.
-From GQ Require Import Model.C06 Proofs.C06_Acc Proofs.C06_Db Proofs.C06 Proofs.C06_Sto Proofs.C06_R3.
+From GQ Require Import Model.C06 Proofs.C06_Acc Proofs.C06_Db Proofs.C06 Proofs.C06_Sto Proofs.C06_R3 Proofs.C06_Sw.
 Import ListNotations.
 Local Open Scope N_scope.
 
@@ -397,3 +397,65 @@ Theorem unlocked_batch_loses_delete_refuted :
     commit_ok (mkSt (delks (written (run_sched empty_buf [] sched)) d1) (s_acc s') (s_size s')) = false.
 Proof. exact unlocked_loses_delete. Qed.
 Print Assumptions unlocked_batch_loses_delete_refuted.
+
+(* ---- 10. extension round (model growth): the WHOLE rollback loop of SetCurrentHeader, any number of blocks ---- *)
+
+(* [switch_back o tv s bs]: the blocks bs are appended on s, then the loop of SetCurrentHeader undoes them newest
+   first, one batch per block, every iteration applied to the database the previous one left.  For every branch of
+   blocks of Qi operations whose created keys are new when the block is appended (intra-block chains, trimmed outputs,
+   outputs spent and trimmed in one block (F5), outputs created in one block of the branch and spent or trimmed in a
+   later one) the loop ends with exactly the UTXO set of the common ancestor. *)
+Theorem head_switch_restores_ancestor_utxo_set : forall bs s d,
+  db_ok (s_db s) -> chain_rollbackable s bs ->
+  switch_back RestoreThenDelete ParentDb s bs = Some d -> d = s_db s.
+Proof. exact switch_back_restores. Qed.
+Print Assumptions head_switch_restores_ancestor_utxo_set.
+
+(* "undo . do = id" for the commitment: the header of the common ancestor (accumulator = UTXORoot, set size, both
+   stored per block hash and not rewritten by the loop) describes the database again after the switch *)
+Theorem head_switch_ancestor_header_describes_database : forall bs s d,
+  Inv s -> chain_rollbackable s bs ->
+  switch_back RestoreThenDelete ParentDb s bs = Some d ->
+  commit_ok (mkSt d (s_acc s) (s_size s)) = true.
+Proof. exact switch_back_commitment. Qed.
+Print Assumptions head_switch_ancestor_header_describes_database.
+
+(* one iteration is theorem 18's rollback_block; the loop is defined for every branch that could be appended *)
+Theorem head_switch_loop_generalises_one_iteration : forall o tv s,
+  (forall b, switch_back o tv s [b] = rollback_block o tv s (fst b) (snd b))
+  /\ (forall bs s', run_chain tv s bs = Some s' -> exists d, switch_back o tv s bs = Some d).
+Proof. intros o tv s. split; [apply switch_back_one|intros bs s' R; exact (switch_back_defined o tv bs s s' R)]. Qed.
+Print Assumptions head_switch_loop_generalises_one_iteration.
+
+(* the swapped loop order over a branch of two blocks: the newer block is undone correctly, the output created and
+   spent inside the OLDER block is resurrected (full statement for the swapped order refuted for branches too) *)
+Theorem swapped_rollback_order_two_blocks_refuted :
+  exists s bs, Inv s /\ chain_rollbackable s bs /\ length bs = 2%nat /\
+    switch_back RestoreThenDelete ParentDb s bs = Some (s_db s) /\
+    switch_back DeleteThenRestore ParentDb s bs = Some (s_db s ++ [(3, 30)]).
+Proof. exact swapped_order_two_blocks. Qed.
+Print Assumptions swapped_rollback_order_two_blocks_refuted.
+
+(* parent {1,2,6}; block A spends 1, creates 3 and spends it again, creates 4, output 2 is trimmed; block B spends 4
+   (created by A), creates 5, output 6 is trimmed; block C spends 5: three iterations of the loop *)
+Example head_switch_three_blocks_nonvacuous :
+  let s := mkSt [(1, 10); (2, 20); (6, 60)] (of_content [10; 20; 60]) 3 in
+  let bs := [([Spend 1; Create 3 30; Spend 3; Create 4 40], [[(2, true)]]);
+             ([Spend 4; Create 5 50], [[(6, true)]]);
+             ([Spend 5], [])] in
+  Inv s /\ chain_rollbackable s bs
+  /\ option_map s_db (run_chain ParentDb s bs) = Some []
+  /\ switch_back RestoreThenDelete ParentDb s bs = Some [(1, 10); (2, 20); (6, 60)].
+Proof.
+  cbn zeta. split.
+  - split; [cbn; repeat split; lia|]. split; [intros e; reflexivity|reflexivity].
+  - split.
+    + cbn [chain_rollbackable fst snd]. split; [reflexivity|]. split.
+      * intros k e [H|[H|[H|[H|[]]]]]; inversion H; reflexivity.
+      * vm_compute finalize. cbn [chain_rollbackable fst snd]. split; [reflexivity|]. split.
+        -- intros k e [H|[H|[]]]; inversion H; reflexivity.
+        -- vm_compute finalize. cbn [chain_rollbackable fst snd]. split; [reflexivity|]. split.
+           ++ intros k e [H|[]]; inversion H.
+           ++ vm_compute finalize. exact I.
+    + split; vm_compute; reflexivity.
+Qed.
